@@ -881,5 +881,64 @@ def recRoot (c : HCfg) (h : Heap) (root : Obj) (n : Nat) : Option (RSt × Obj) :
                (exitNode nd.kind 0 items st2.out).1, st2.trace ++ [.exit id]⟩,
               (exitNode nd.kind 0 items st2.out).2)
 
+/-! ### the memoised recursion with raising visit callbacks -/
+
+/-- outcome of the memoised recursion when visit callbacks may raise: a result, or the state in
+    which a visit raised (and `reraise_visit` is set) -/
+inductive RRes (α : Type) | ok (st : RSt) (a : α) | raised (st : RSt)
+
+mutual
+def recValE (c : HCfg) (h : Heap) (root : Obj) : Nat → Path → Key → Obj → RSt → Option (RRes Obj)
+  | 0, _, _, _, _ => none
+  | n + 1, p, k, o, st =>
+    match o with
+    | .atom _ => some (.ok { st with trace := st.trace ++ [.enter p k o false] } o)
+    | .ref id =>
+      match lookup id st.reg with
+      | some v => some (.ok st v)
+      | none =>
+        match h[id]? with
+        | none => some (.ok { st with trace := st.trace ++ [.enter p k o false] } o)
+        | some nd =>
+          match recItemsE c h root n (if o = root then p else p ++ [k]) (enumItems nd.kind 0 nd.items) []
+              ⟨(id, .ref st.out.length) :: st.reg, st.out ++ [⟨nd.kind, []⟩],
+               st.trace ++ [.enter p k o true]⟩ with
+          | none => none
+          | some (.raised st2) => some (.raised st2)
+          | some (.ok st2 items) =>
+            some (.ok ⟨(id, (exitNode nd.kind st.out.length items st2.out).2) :: st2.reg,
+                   (exitNode nd.kind st.out.length items st2.out).1, st2.trace ++ [.exit id]⟩
+                  (exitNode nd.kind st.out.length items st2.out).2)
+def recItemsE (c : HCfg) (h : Heap) (root : Obj) :
+    Nat → Path → List (Key × Obj) → List (Key × Obj) → RSt → Option (RRes (List (Key × Obj)))
+  | 0, _, _, _, _ => none
+  | _ + 1, _, [], acc, st => some (.ok st acc)
+  | n + 1, p, (k, o) :: rest, acc, st =>
+    match recValE c h root n p k o st with
+    | none => none
+    | some (.raised st1) => some (.raised st1)
+    | some (.ok st1 val) =>
+      match visitOut c st1.out p k val with
+      | none => some (.raised { st1 with trace := st1.trace ++ [.visit p k o val] })
+      | some its =>
+        recItemsE c h root n p rest (acc ++ its) { st1 with trace := st1.trace ++ [.visit p k o val] }
+end
+
+def recRootE (c : HCfg) (h : Heap) (root : Obj) (n : Nat) : Option (RRes Obj) :=
+  match root with
+  | .atom _ => none
+  | .ref id =>
+    match h[id]? with
+    | none => none
+    | some nd =>
+      match recItemsE c h root n [] (enumItems nd.kind 0 nd.items) []
+          ⟨[(id, .ref 0)], [⟨nd.kind, []⟩], [.enter [] .none root true]⟩ with
+      | none => none
+      | some (.raised st2) => some (.raised st2)
+      | some (.ok st2 items) =>
+        some (.ok ⟨(id, (exitNode nd.kind 0 items st2.out).2) :: st2.reg,
+               (exitNode nd.kind 0 items st2.out).1, st2.trace ++ [.exit id]⟩
+              (exitNode nd.kind 0 items st2.out).2)
+
 
 end C08
